@@ -4,7 +4,7 @@
 
   All statements are for every sequence (any length, any characters), every frame, offset,
   record length and minimum length; the model is `ASV/Model/Orf.lean` (the tree with
-  fixes/D13, D25, D26 applied), the spec `ASV/Spec/Orf.lean`.
+  fixes/D13, D28, D29 applied), the spec `ASV/Spec/Orf.lean`.
 
   D23 (`end - start < minimum_length`, pinned by the repo's own `test_no_hits`) is a known
   finding: the exactness theorem with the documented bound `≥ minLen` is `_partial`
@@ -111,7 +111,7 @@ theorem orf_coords_extract_fwd (comp : Char → Char) (rec w : Seq) (offset : In
   extract_fwd_ring comp rec w offset s e hL hwin hs he hlen
 
 /-- reverse strand on a ring: the window is the reverse complement of that chunk; covers the
-    wrapped case (D13: parts in transcription order) and the whole-ring case (D25) -/
+    wrapped case (D13: parts in transcription order) and the whole-ring case (D28) -/
 theorem orf_coords_extract_rev (comp : Char → Char) (rec w : Seq) (offset : Int) (s e : Nat)
     (hL : 0 < rec.length) (hwin : WindowRev comp rec w offset rec.length)
     (hs : s < e) (he : e + 3 ≤ w.length) (hlen : orfLen s e ≤ rec.length) :
@@ -271,12 +271,12 @@ example : ¬ NoExactLen "ATGAAAAAATAA".toList 12 := fun h => h 0 9 (by decide) (
 /-- reverse strand across the origin (D13): ring of 60, window = revcomp(record[50:60] + record[0:8]) -/
 example : scanOrfs "ATGAAACCCGGGTTTTAA".toList false (-10) 6 (some 60)
     = [.compound [⟨0, 8, .rev⟩, ⟨50, 60, .rev⟩]] := by decide
-/-- an ORF covering a whole ring of 12 from offset 3 (D25) -/
+/-- an ORF covering a whole ring of 12 from offset 3 (D28) -/
 example : scanOrfs "ATGAAACCCTAA".toList true 3 6 (some 12)
     = [.compound [⟨3, 12, .fwd⟩, ⟨0, 3, .fwd⟩]] := by decide
 example : extract complement "TAAATGAAACCC".toList (.compound [⟨3, 12, .fwd⟩, ⟨0, 3, .fwd⟩])
     = "ATGAAACCCTAA".toList := by decide
-/-- the cursor of the gap search does not move backwards (D26): genes [0,110) and [50,105), pad 10 -/
+/-- the cursor of the gap search does not move backwards (D29): genes [0,110) and [50,105), pad 10 -/
 example : findIntergenic 0 300 [⟨0, 110⟩, ⟨50, 105⟩] 0 10 = [(0, 10), (100, 300)] := by decide
 /-- origin-crossing area of a ring of 60 with parts [40,60) and [0,20), no genes: one joined area -/
 example : crossOriginIntergenic [(40, 60, []), (0, 20, [])] 60 6 0 = some [(-20, 20)] := by decide
